@@ -162,6 +162,7 @@ struct CaseResult {
     nontrivial: bool,
     sample: Option<Value>,
     dir_orders: std::collections::BTreeSet<String>,
+    digest: String,
 }
 
 pub fn files_json(files: &Files) -> Value {
@@ -239,11 +240,13 @@ fn check_case(sb: &Sandbox, opts: &Opts, idx: usize, case: &Case, runs: usize) -
     let pd = sha(serde_json::to_string(&files_json(&case.files)).unwrap().as_bytes());
     fingerprints.push(format!("{}:{}", &pd[..12], 0));
     let mut violation = None;
+    let mut digest = sha(serde_json::to_string(&base).unwrap().as_bytes());
     for c in 0..runs {
         // c == 0 repeats the identical decision vector: nondeterminism outside every seam
         let cfg = if c == 0 { c0.clone() } else { config(opts.seed, idx as u64, c as u64) };
         let (obs, n, d) = execute(sb, &case.files, &layout, topo.as_deref(), &cfg);
         procs += n;
+        digest = sha(format!("{digest}{}", serde_json::to_string(&obs).unwrap()).as_bytes());
         dir_orders.extend(d);
         fingerprints.push(format!("{}:{}", &pd[..12], c));
         if let Some(field) = first_difference(&base, &obs) {
@@ -302,7 +305,7 @@ fn check_case(sb: &Sandbox, opts: &Opts, idx: usize, case: &Case, runs: usize) -
         "separate": base.get("sep:verdict"),
         "compared_fields": base.keys().collect::<Vec<_>>(),
     }));
-    CaseResult { violation, procs, fingerprints, nontrivial: nt, sample, dir_orders }
+    CaseResult { violation, procs, fingerprints, nontrivial: nt, sample, dir_orders, digest }
 }
 
 /// Child mode: print one line per (case index, sha of everything observed under config 0).
@@ -347,6 +350,7 @@ pub fn run(opts: &Opts) -> i32 {
     let mut violations = Vec::new();
     let mut nontrivial_cases = 0u64;
     let mut all_dir_orders = std::collections::BTreeSet::new();
+    harness::print_run_digest(&results.iter().map(|r| r.digest.clone()).collect::<Vec<_>>());
     for (i, r) in results.into_iter().enumerate() {
         ev.evaluations += r.procs;
         if r.nontrivial {
